@@ -17,16 +17,44 @@ fn end_ledger() {
     crate::reach_end!();
 }
 
-/// drain one select() result list into (id, first byte, len) triples / closed ids
-fn take(results: Vec<OsIpcSelectionResult>, data: &mut Vec<(u64, u8, usize)>, closed: &mut Vec<u64>) {
-    for r in results {
-        match r {
-            OsIpcSelectionResult::DataReceived(id, d, ch, sh) => {
-                data.push((id, if d.is_empty() { 0 } else { d[0] }, d.len()));
-                drop((ch, sh));
+/// What the selects of one harness reported: (id, first byte, length) per message, and closed ids.
+/// Fixed-size: every element read back from the result vector (a heap-allocated enum) has a discriminant
+/// that is not a constant for the symbolic execution, so both arms are explored for each element and a
+/// growing Vec would get a symbolic length.
+pub struct Got {
+    pub nd: usize,
+    pub d: [(u64, u8, usize); 4],
+    pub nc: usize,
+    pub c: [u64; 4],
+}
+impl Got {
+    pub fn new() -> Got {
+        Got { nd: 0, d: [(u64::MAX, 0, 0); 4], nc: 0, c: [u64::MAX; 4] }
+    }
+}
+/// drain one select() result list.  The results are NOT dropped element by element: the drop glue of a
+/// result switches on the same non-constant discriminant and would unroll the drop loops of two vectors of
+/// non-constant length per element.  No descriptor is attached to any message of these scripts; had the crate
+/// put a descriptor or a mapping into a result, the ledger at the end of the harness would be off by it.
+fn take(results: Vec<OsIpcSelectionResult>, g: &mut Got) {
+    let results = core::mem::ManuallyDrop::new(results);
+    let n = results.len();
+    assert!(n <= 4, "more results than the script can produce");
+    let mut i = 0;
+    while i < n {
+        match &results[i] {
+            OsIpcSelectionResult::DataReceived(id, d, _ch, _sh) => {
+                assert!(g.nd < 4);
+                g.d[g.nd] = (*id, if d.is_empty() { 0 } else { d[0] }, d.len());
+                g.nd += 1;
             },
-            OsIpcSelectionResult::ChannelClosed(id) => closed.push(id),
+            OsIpcSelectionResult::ChannelClosed(id) => {
+                assert!(g.nc < 4);
+                g.c[g.nc] = *id;
+                g.nc += 1;
+            },
         }
+        i += 1;
     }
 }
 
@@ -58,28 +86,28 @@ pub fn rxset_two_members() {
         assert!(inject(ded.0, None, &b[24..], &[]) > 0);
         raw_close(ded.0);
         raw_close(ded.1);
-        let (mut data, mut closed) = (Vec::new(), Vec::new());
-        take(set.select().unwrap(), &mut data, &mut closed);
-        assert!(closed.is_empty(), "C06: closed event for a connected member");
-        assert!(data.len() == 2, "C06: every pending message exactly once");
-        let m1 = if data[0].0 == id1 { data[0] } else { data[1] };
-        let m2 = if data[0].0 == id2 { data[0] } else { data[1] };
+        let mut g = Got::new();
+        take(set.select().unwrap(), &mut g);
+        assert!(g.nc == 0, "C06: closed event for a connected member");
+        assert!(g.nd == 2, "C06: every pending message exactly once");
+        let m1 = if g.d[0].0 == id1 { g.d[0] } else { g.d[1] };
+        let m2 = if g.d[0].0 == id2 { g.d[0] } else { g.d[1] };
         assert!(m1.0 == id1 && m1.1 == a && m1.2 == 1, "C06: message of member 1 (id, contents)");
         assert!(m2.0 == id2 && m2.1 == b[0] && m2.2 == 25, "C06: multi-packet message of member 2 (id, contents)");
         // member 1: one more message, then its only sender goes away
         let c: u8 = kani::any();
         assert!(inject(s1, Some(1), &[c], &[]) > 0);
         raw_close(s1);
-        let (mut data, mut closed) = (Vec::new(), Vec::new());
-        take(set.select().unwrap(), &mut data, &mut closed);
-        assert!(data.len() == 1 && data[0] == (id1, c, 1), "C06: last message of a member comes before its closed event");
-        assert!(closed.len() == 1 && closed[0] == id1, "C06: exactly one closed event, for the disconnected member");
+        let mut g = Got::new();
+        take(set.select().unwrap(), &mut g);
+        assert!(g.nd == 1 && g.d[0] == (id1, c, 1), "C06: last message of a member comes before its closed event");
+        assert!(g.nc == 1 && g.c[0] == id1, "C06: exactly one closed event, for the disconnected member");
         // member 2 is still in the set and still served
         let d: u8 = kani::any();
         assert!(inject(s2, Some(1), &[d], &[]) > 0);
-        let (mut data, mut closed) = (Vec::new(), Vec::new());
-        take(set.select().unwrap(), &mut data, &mut closed);
-        assert!(closed.is_empty() && data.len() == 1 && data[0] == (id2, d, 1), "C06: surviving member still served");
+        let mut g = Got::new();
+        take(set.select().unwrap(), &mut g);
+        assert!(g.nc == 0 && g.nd == 1 && g.d[0] == (id2, d, 1), "C06: surviving member still served");
         raw_close(s2);
         // The set is deliberately NOT dropped: dropping mio's selector reaches std's OwnedFd debug check,
         // which calls the variadic fcntl with two arguments and makes kani-compiler ICE against the
@@ -94,10 +122,266 @@ pub fn rxset_two_members() {
     }
 }
 
+/// The set is deliberately NOT dropped (see rxset_two_members); `left` = the epoll descriptor + members still in it.
+fn set_end(set: OsIpcReceiverSet, left: usize) {
+    core::mem::forget(set);
+    assert!(env::nopen() == left, "C11: descriptors left: expected the epoll descriptor and the members still in the set");
+    assert!(!env::bad_close(), "C11: close of a descriptor that was not open");
+    assert!(!env::lost_wakeup(), "C06: select would block although a member has an undelivered message or closure");
+    assert!(!env::model_bound_exceeded(), "MODEL-BOUND");
+    crate::reach_end!();
+}
+
+/// one member: a message queued BEFORE add, one after; then the sender goes away; optionally the first
+/// wait is interrupted by a signal
+fn one_member(eintr: bool) {
+    setup(64);
+    env::set_block_is_violation(true);
+    let (s1, r1) = raw_pair();
+    let a: u8 = kani::any();
+    assert!(inject(s1, Some(1), &[a], &[]) > 0);
+    let mut set = OsIpcReceiverSet::new().unwrap();
+    let id1 = set.add(rx_from_fd(r1)).unwrap();
+    if eintr {
+        env::set_eintr_at(0);
+    }
+    let mut g = Got::new();
+    take(set.select().unwrap(), &mut g);
+    assert!(g.nc == 0 && g.nd == 1 && g.d[0] == (id1, a, 1), "C06: message queued before add is reported once");
+    let c: u8 = kani::any();
+    assert!(inject(s1, Some(1), &[c], &[]) > 0);
+    raw_close(s1);
+    let mut g = Got::new();
+    take(set.select().unwrap(), &mut g);
+    assert!(g.nd == 1 && g.d[0] == (id1, c, 1), "C06: last message of a member comes before its closed event");
+    assert!(g.nc == 1 && g.c[0] == id1, "C06: exactly one closed event, for the disconnected member");
+    set_end(set, 1);
+}
+
+/// C12 observed through a receiver set: member 1 has a complete message, member 2's sender died after `sent`
+/// packets of a 3-packet message (no surviving handle).  select must hand out member 1's message (its send
+/// had returned) and must not fail as a whole; member 2 is reported closed, never as a message.
+fn crash_select(sent: usize) {
+    setup(64);
+    env::set_block_is_violation(true);
+    let (s1, r1) = raw_pair();
+    let (s2, r2) = raw_pair();
+    let mut set = OsIpcReceiverSet::new().unwrap();
+    let id1 = set.add(rx_from_fd(r1)).unwrap();
+    let id2 = set.add(rx_from_fd(r2)).unwrap();
+    assert!(id1 != id2, "C06: two members share an id");
+    let a: u8 = kani::any();
+    assert!(inject(s1, Some(1), &[a], &[]) > 0);
+    let b: [u8; 57] = kani::any();
+    let ded = raw_pair();
+    assert!(inject(s2, Some(57), &b[..24], &[ded.1]) > 0);
+    if sent >= 2 {
+        assert!(inject(ded.0, None, &b[24..56], &[]) > 0);
+    }
+    // the sending process dies: everything it owned is closed
+    raw_close(s2);
+    raw_close(ded.0);
+    raw_close(ded.1);
+    let mut g = Got::new();
+    // both members are ready before the wait: one select reports both
+    let r = set.select();
+    assert!(r.is_ok(), "C12: a sender dying mid-message made select fail as a whole (messages of other members are lost, a router stops)");
+    take(r.unwrap(), &mut g);
+    assert!(g.nd == 1 && g.d[0] == (id1, a, 1), "C12: a message whose send had returned must still be delivered intact (and the interrupted one never as a message)");
+    assert!(g.nc == 1 && g.c[0] == id2, "C12: the member whose only sender died is reported closed, once");
+    raw_close(s1);
+    set_end(set, 2);
+}
+
+/// three members ready at once (a closure among them); a member added while traffic flows, with two
+/// messages already queued on it: both are reported, in send order, under the id `add` returned
+fn three_ready_then_add() {
+    setup(64);
+    env::set_block_is_violation(true);
+    let (s1, r1) = raw_pair();
+    let (s2, r2) = raw_pair();
+    let (s3, r3) = raw_pair();
+    let mut set = OsIpcReceiverSet::new().unwrap();
+    let id1 = set.add(rx_from_fd(r1)).unwrap();
+    let id2 = set.add(rx_from_fd(r2)).unwrap();
+    let id3 = set.add(rx_from_fd(r3)).unwrap();
+    assert!(id1 != id2 && id1 != id3 && id2 != id3, "C06: two members share an id");
+    let v: [u8; 4] = kani::any();
+    assert!(inject(s1, Some(1), &[v[0]], &[]) > 0);
+    assert!(inject(s3, Some(1), &[v[1]], &[]) > 0);
+    raw_close(s2); // member 2: closure only
+    let mut g = Got::new();
+    take(set.select().unwrap(), &mut g);
+    assert!(g.nd == 2 && g.nc == 1 && g.c[0] == id2, "C06: three ready members: two messages and one closure, each once");
+    let m1 = if g.d[0].0 == id1 { g.d[0] } else { g.d[1] };
+    let m3 = if g.d[0].0 == id3 { g.d[0] } else { g.d[1] };
+    assert!(m1 == (id1, v[0], 1) && m3 == (id3, v[1], 1), "C06: message tagged with the id add returned for its member");
+    // a fourth receiver joins while the others are live; two messages are already queued on it
+    let (s4, r4) = raw_pair();
+    assert!(inject(s4, Some(1), &[v[2]], &[]) > 0);
+    assert!(inject(s4, Some(1), &[v[3]], &[]) > 0);
+    let id4 = set.add(rx_from_fd(r4)).unwrap();
+    assert!(id4 != id1 && id4 != id3, "C06: a new member got the id of a live one");
+    let mut g = Got::new();
+    take(set.select().unwrap(), &mut g);
+    assert!(g.nc == 0 && g.nd == 2 && g.d[0] == (id4, v[2], 1) && g.d[1] == (id4, v[3], 1), "C06: traffic queued before add is reported, in send order");
+    raw_close(s1);
+    raw_close(s3);
+    raw_close(s4);
+    set_end(set, 4);
+}
+
+/// two members, a 1-packet message next to a 2-packet one, both pending before one select
+fn two_multi() {
+    setup(64);
+    env::set_block_is_violation(true);
+    let (s1, r1) = raw_pair();
+    let (s2, r2) = raw_pair();
+    let mut set = OsIpcReceiverSet::new().unwrap();
+    let id1 = set.add(rx_from_fd(r1)).unwrap();
+    let id2 = set.add(rx_from_fd(r2)).unwrap();
+    assert!(id1 != id2, "C06: two members share an id");
+    let a: u8 = kani::any();
+    let b: [u8; 25] = kani::any();
+    assert!(inject(s1, Some(1), &[a], &[]) > 0);
+    let ded = raw_pair();
+    assert!(inject(s2, Some(25), &b[..24], &[ded.1]) > 0);
+    assert!(inject(ded.0, None, &b[24..], &[]) > 0);
+    raw_close(ded.0);
+    raw_close(ded.1);
+    let mut g = Got::new();
+    take(set.select().unwrap(), &mut g);
+    assert!(g.nc == 0, "C06: closed event for a connected member");
+    assert!(g.nd == 2, "C06: every pending message exactly once");
+    let m1 = if g.d[0].0 == id1 { g.d[0] } else { g.d[1] };
+    let m2 = if g.d[0].0 == id2 { g.d[0] } else { g.d[1] };
+    assert!(m1 == (id1, a, 1), "C06: message of member 1 (id, contents)");
+    assert!(m2 == (id2, b[0], 25), "C06: multi-packet message of member 2 (id, contents)");
+    raw_close(s1);
+    raw_close(s2);
+    set_end(set, 3);
+}
+
+/// a member closes (nothing queued); afterwards the other member is still served under its own id
+fn closed_then_other() {
+    setup(64);
+    env::set_block_is_violation(true);
+    let (s1, r1) = raw_pair();
+    let (s2, r2) = raw_pair();
+    let mut set = OsIpcReceiverSet::new().unwrap();
+    let id1 = set.add(rx_from_fd(r1)).unwrap();
+    let id2 = set.add(rx_from_fd(r2)).unwrap();
+    raw_close(s1);
+    let mut g = Got::new();
+    take(set.select().unwrap(), &mut g);
+    assert!(g.nd == 0 && g.nc == 1 && g.c[0] == id1, "C06: exactly one closed event, for the disconnected member only");
+    let d: u8 = kani::any();
+    assert!(inject(s2, Some(1), &[d], &[]) > 0);
+    let mut g = Got::new();
+    take(set.select().unwrap(), &mut g);
+    assert!(g.nc == 0 && g.nd == 1 && g.d[0] == (id2, d, 1), "C06: surviving member still served, no second closed event");
+    raw_close(s2);
+    set_end(set, 2);
+}
+
+/// a receiver with two messages already queued joins a set that has an idle member
+fn add_queued_two() {
+    setup(64);
+    env::set_block_is_violation(true);
+    let (s1, r1) = raw_pair();
+    let mut set = OsIpcReceiverSet::new().unwrap();
+    let id1 = set.add(rx_from_fd(r1)).unwrap();
+    let (s4, r4) = raw_pair();
+    let v: [u8; 2] = kani::any();
+    assert!(inject(s4, Some(1), &[v[0]], &[]) > 0);
+    assert!(inject(s4, Some(1), &[v[1]], &[]) > 0);
+    let id4 = set.add(rx_from_fd(r4)).unwrap();
+    assert!(id4 != id1, "C06: a new member got the id of a live one");
+    let mut g = Got::new();
+    take(set.select().unwrap(), &mut g);
+    assert!(g.nc == 0 && g.nd == 2 && g.d[0] == (id4, v[0], 1) && g.d[1] == (id4, v[1], 1), "C06: traffic queued before add is reported, in send order");
+    raw_close(s1);
+    raw_close(s4);
+    set_end(set, 3);
+}
+
+/// C12 through a set, WITH a surviving sender handle of the crashed member's channel
+fn crash_select_surv() {
+    setup(64);
+    env::set_block_is_violation(true);
+    let (s2, r2) = raw_pair();
+    let keep = unsafe { libc::fcntl(s2, libc::F_DUPFD_CLOEXEC, 0) };
+    let mut set = OsIpcReceiverSet::new().unwrap();
+    let id2 = set.add(rx_from_fd(r2)).unwrap();
+    let b: [u8; 57] = kani::any();
+    let ded = raw_pair();
+    assert!(inject(s2, Some(57), &b[..24], &[ded.1]) > 0);
+    raw_close(s2);
+    raw_close(ded.0);
+    raw_close(ded.1);
+    let mut g = Got::new();
+    let r = set.select();
+    assert!(r.is_ok(), "C12: a sender dying mid-message made select fail as a whole");
+    take(r.unwrap(), &mut g);
+    assert!(g.nd == 0, "C12: an interrupted message was delivered as a message");
+    assert!(g.nc == 0, "C12: member reported closed (and removed from the set) although another sender survives");
+    let c: u8 = kani::any();
+    assert!(inject(keep, Some(1), &[c], &[]) > 0);
+    let mut g = Got::new();
+    take(set.select().unwrap(), &mut g);
+    assert!(g.nd == 1 && g.d[0] == (id2, c, 1), "C12: messages from surviving senders keep arriving");
+    raw_close(keep);
+    set_end(set, 2);
+}
+
+/// the same through the ipc layer: IpcReceiverSet, typed channel, OpaqueIpcMessage::to
+fn ipc_set() {
+    use ipc_channel::ipc::{self, IpcReceiverSet, IpcSelectionResult};
+    setup(64);
+    env::set_block_is_violation(true);
+    let (tx, rx) = ipc::channel::<u8>().unwrap();
+    let mut set = IpcReceiverSet::new().unwrap();
+    let id = set.add(rx).unwrap();
+    let v: u8 = kani::any();
+    tx.send(v).unwrap();
+    let res = core::mem::ManuallyDrop::new(set.select().unwrap());
+    assert!(res.len() == 1, "C06: one message, one result");
+    match &res[0] {
+        IpcSelectionResult::MessageReceived(i, _m) => assert!(*i == id, "C06: id"),
+        IpcSelectionResult::ChannelClosed(_) => assert!(false, "C06: closed event for a connected member"),
+    }
+    let first = unsafe { core::ptr::read(&res[0]) };
+    if let IpcSelectionResult::MessageReceived(_, m) = first {
+        let got = m.to::<u8>();
+        assert!(matches!(got, Ok(x) if x == v), "C06/C01: value received through the set");
+        core::mem::forget(got);
+    }
+    drop(tx);
+    let res = core::mem::ManuallyDrop::new(set.select().unwrap());
+    assert!(res.len() == 1 && matches!(&res[0], IpcSelectionResult::ChannelClosed(i) if *i == id), "C06: closed event once all senders are gone");
+    core::mem::forget(set);
+    assert!(env::nopen() == 1, "C11: descriptors left: expected the epoll descriptor only");
+    assert!(!env::bad_close() && !env::lost_wakeup() && !env::model_bound_exceeded());
+    crate::reach_end!();
+}
+
+harnesses! {
+    #[unwind(14)] fn rxset_three_ready_then_add() { three_ready_then_add() }
+    #[unwind(14)] fn rxset_crash_after_1_surv() { crash_select_surv() }
+    #[unwind(14)] fn rxset_ipc() { ipc_set() }
+    #[unwind(14)] fn rxset_two_multi() { two_multi() }
+    #[unwind(14)] fn rxset_closed_then_other() { closed_then_other() }
+    #[unwind(14)] fn rxset_add_queued_two() { add_queued_two() }
+    #[unwind(14)] fn rxset_one_member() { one_member(false) }
+    #[unwind(14)] fn rxset_one_member_eintr() { one_member(true) }
+    #[unwind(14)] fn rxset_crash_after_1() { crash_select(1) }
+    #[unwind(14)] fn rxset_crash_after_2() { crash_select(2) }
+}
+
 #[cfg(not(kani))]
-pub fn lookup(name: &str) -> Option<fn()> {
+pub fn lookup2(name: &str) -> Option<fn()> {
     if name == "rxset_two_members" {
         return Some(rxset_two_members as fn());
     }
-    None
+    lookup(name)
 }
